@@ -268,6 +268,15 @@ func cmdGramReplay(args []string) {
 					}
 				}
 			}
+			if err != nil {
+				// the same refused text among several resources: the call must report it whatever follows it
+				lib2 := ast.NewKnowledgeLibrary()
+				rb2 := builder.NewRuleBuilder(lib2)
+				good := pkg.NewBytesResource([]byte(`rule After "a" { when true then Retract("After"); }`))
+				if e2 := rb2.BuildRuleFromResources("g", "1", []pkg.Resource{pkg.NewBytesResource([]byte(priorRule)), pkg.NewBytesResource([]byte(text)), good}); e2 == nil {
+					report("a refused text among several resources (BuildRuleFromResources)", "an error", "nil")
+				}
+			}
 			if msg := priorBehaves(lib); msg != "" {
 				what := "earlier rules after an accepted text"
 				if err != nil {
